@@ -170,7 +170,7 @@ func (p *Program) muSpec(withDirty bool) *LockSpec {
 							return []*Access{{Loc: loc, Write: true, Pos: x.Pos(), Desc: exprStr(x.Fun) + "() [unclassified container method]", Node: x}}
 						}
 					}
-					if withDirty && fv == d.aofdirty && se.Sel.Name == "Store" {
+					if withDirty && fv == d.aofdirty && (se.Sel.Name == "Store" || se.Sel.Name == "CompareAndSwap" || se.Sel.Name == "Swap") {
 						return []*Access{{Loc: "Server.aofdirty.Store", Write: true, Pos: x.Pos(), Desc: exprStr(x.Fun) + "(" + exprsStr(x.Args) + ")", Node: x}}
 					}
 				}
